@@ -331,7 +331,7 @@ def eperf_suite(bdir, pid, tier, verdict, objs):
 def workload(pid, tier, rng):
     q = tier == "quick"
     execs = []
-    ld_small = gen.ldpc_points(11 if q else 12, 12 if q else 18)
+    ld_small = gen.ldpc_points(11 if q else 12, 12 if q else 15)
     ld_mid = [p for p in gen.ldpc_points(16) if p.n > (10 if q else 12)][: (2 if q else 6)]
     rs_small = gen.rs_points(6 if q else 8, ms=(4, 8))
     rs_mid = [p for p in gen.rs_points(10 if q else 12, ms=(4,), codecs=(2,)) if p.n > (6 if q else 8)]
@@ -360,7 +360,7 @@ def workload(pid, tier, rng):
         for k in range(1, 15):
             execs.append(gen.encode_exec(P(2, k, 15 - k, m=4)))
     elif pid == "C03":
-        execs += ldpc_exhaustive(ld_small, rng, apis=("recv", "setavail"), finish=(True,), orders=1 if q else 3, probe="end")
+        execs += ldpc_exhaustive(ld_small, rng, apis=("recv", "setavail"), finish=(True,), orders=1 if q else 2, probe="end")
         execs += ldpc_exhaustive(ld_mid, rng, apis=("recv",), finish=(True,), orders=1, probe="end", maxsub=800 if q else 8000)
         execs += dense_ldpc(rng, 100 if q else 1500, finish_choices=(True,), probe="end")
         execs += big_ldpc(rng, [350, 600] if q else [350, 600, 1100, 2500, 6000])
@@ -369,7 +369,7 @@ def workload(pid, tier, rng):
                              probe_choices=("end",))
             execs += [["srand %d" % sd] + e for e in ex]
     elif pid == "C04":
-        execs += ldpc_exhaustive(ld_small, rng, apis=("recv",), finish=(False,), orders=2 if q else 4, probe="each")
+        execs += ldpc_exhaustive(ld_small, rng, apis=("recv",), finish=(False,), orders=2 if q else 3, probe="each")
         execs += ldpc_exhaustive(ld_mid, rng, apis=("recv",), finish=(False,), orders=1, probe="each", maxsub=300 if q else 4000)
         execs += random_ldpc(rng, 150 if q else 2000, 40 if q else 64, apis=("recv",), finish_choices=(False,),
                              probe_choices=("each",))
